@@ -61,6 +61,8 @@ type scanEval struct {
 	limit   int
 	depth   int
 	aborted string
+	// loopBody: the statements interpreted are (part of) a loop body, `continue` ends a path
+	loopBody bool
 }
 
 // inlineTarget: x is a call of a function or method declared in the same file
@@ -586,6 +588,17 @@ func (e *scanEval) run(stmts []ast.Stmt, set byteSet, key0 string) (fall map[str
 				} else {
 					add(next, key, rest)
 				}
+			case *ast.BranchStmt:
+				if n.Tok == token.CONTINUE && e.loopBody {
+					// the next iteration of the enclosing loop: the path ends here
+					for v := range s {
+						if s[v] {
+							e.out[v] = append(e.out[v], tr+" ; continue")
+						}
+					}
+				} else {
+					add(next, with(str(st)), s)
+				}
 			case *ast.BlockStmt:
 				for kk, fs := range e.run(n.List, s, key) {
 					add(next, kk, fs)
@@ -939,4 +952,270 @@ func loopTable(fset *token.FileSet, fd *ast.FuncDecl, funcs map[string]*ast.Func
 		tab[v] = strings.Join(o, " || ")
 	}
 	return tab, ""
+}
+
+// ---- C17/escape-agree -------------------------------------------------------------------------------------------------------
+// "The same bytes encoding/json produces", for strings: the encoder's string
+// writers (one for strings, one for byte strings) escape ASCII bytes in a block
+// `if b := s[i]; b < utf8.RuneSelf { ... }`.  The block is interpreted, as the
+// scanner's state functions are, for every byte value 0..127: the outcome is
+// the sequence of bytes appended (writes through WriteByte / WriteString /
+// append are all read as "append these bytes"; the flush of the pending
+// unescaped run is the same statement in every version and is left out) plus
+// the remaining effects.  The module's two writers and the reference's
+// appendString must give the same map byte -> outcome.
+func ruleEscapeAgree(c *Ctx, rule string) {
+	repoDir := filepath.Join(c.L.Dir, "stdlib", "json")
+	refDir := filepath.Join(build.Default.GOROOT, "src", "encoding", "json")
+	rfset, rfuncs, _, err1 := parseDir(repoDir, "encode.go")
+	gfset, gfuncs, _, err2 := parseDir(refDir, "encode.go")
+	if !c.Anchor(rule, "stdlib/json/encode.go and the reference encoding/json/encode.go under GOROOT", err1 == nil && err2 == nil) {
+		return
+	}
+	// the reference: the function with an escape block that is reached from no
+	// other function with one (there is one: appendString)
+	var refTab *[128]string
+	refName := ""
+	var gnames []string
+	for n := range gfuncs {
+		gnames = append(gnames, n)
+	}
+	sort.Strings(gnames)
+	for _, n := range gnames {
+		if t, why := escapeTable(gfset, gfuncs[n], gfuncs); t != nil && why == "" {
+			if refTab != nil {
+				c.Und(rule, "reference escape block", "encoding/json/encode.go", "more than one function of the reference has an escape block ("+refName+", "+n+")")
+				return
+			}
+			refTab, refName = t, n
+		}
+	}
+	if !c.Anchor(rule, "an escape block `if b := s[i]; b < utf8.RuneSelf {…}` in the reference encoder", refTab != nil) {
+		return
+	}
+	var names []string
+	for n := range rfuncs {
+		names = append(names, n)
+	}
+	sort.Strings(names)
+	for _, n := range names {
+		t, why := escapeTable(rfset, rfuncs[n], rfuncs)
+		if t == nil {
+			continue
+		}
+		pos := rfset.Position(rfuncs[n].Pos())
+		where := fmt.Sprintf("stdlib/json/%s:%d", pos.Filename, pos.Line)
+		key := "string writer " + n
+		if why != "" {
+			c.Und(rule, key, where, "the escape block could not be interpreted ("+why+")")
+			continue
+		}
+		var diff []string
+		first := -1
+		for v := 0; v < 128; v++ {
+			if t[v] != refTab[v] {
+				diff = append(diff, strconv.QuoteRuneToASCII(rune(v)))
+				if first < 0 {
+					first = v
+				}
+			}
+		}
+		det := ""
+		if first >= 0 {
+			show := diff
+			if len(show) > 8 {
+				show = append(show[:8:8], "…")
+			}
+			det = fmt.Sprintf("differs from encoding/json's %s for the bytes %s; for %s the module writes {%s}, the reference {%s}: Marshal does not produce the bytes encoding/json produces for a string containing that byte", refName, strings.Join(show, " "), strconv.QuoteRuneToASCII(rune(first)), cut(t[first], 160), cut(refTab[first], 160))
+		}
+		c.Check(rule, key, where, first < 0, "for each of the 128 ASCII byte values the bytes appended and the remaining effects equal those of encoding/json's "+refName, det)
+	}
+}
+
+// escapeTable: nil when fd has no escape block; otherwise, per ASCII byte value,
+// the canonical outcome of the block.
+func escapeTable(fset *token.FileSet, fd *ast.FuncDecl, funcs map[string]*ast.FuncDecl) (*[128]string, string) {
+	var blk *ast.IfStmt
+	cName := ""
+	ast.Inspect(fd.Body, func(n ast.Node) bool {
+		iff, ok := n.(*ast.IfStmt)
+		if !ok || blk != nil {
+			return blk == nil
+		}
+		as, ok := iff.Init.(*ast.AssignStmt)
+		if !ok || as.Tok != token.DEFINE || len(as.Lhs) != 1 || len(as.Rhs) != 1 {
+			return true
+		}
+		id, ok := as.Lhs[0].(*ast.Ident)
+		if _, isIdx := as.Rhs[0].(*ast.IndexExpr); !ok || !isIdx {
+			return true
+		}
+		be, ok := iff.Cond.(*ast.BinaryExpr)
+		if !ok || be.Op != token.LSS {
+			return true
+		}
+		x, ok1 := be.X.(*ast.Ident)
+		sel, ok2 := be.Y.(*ast.SelectorExpr)
+		if !ok1 || !ok2 || x.Name != id.Name || sel.Sel.Name != "RuneSelf" {
+			return true
+		}
+		blk, cName = iff, id.Name
+		return false
+	})
+	if blk == nil {
+		return nil, ""
+	}
+	e := &scanEval{fset: fset, cName: cName, funcs: funcs, limit: 20000, loopBody: true}
+	var set byteSet
+	for v := 0; v < 128; v++ {
+		set[v] = true
+	}
+	fall := e.run(blk.Body.List, set, "")
+	for k, s := range fall {
+		tr, _ := splitKey(k)
+		for v := range s {
+			if s[v] {
+				e.out[v] = append(e.out[v], tr+" ; <end>")
+			}
+		}
+	}
+	if e.aborted != "" {
+		return &[128]string{}, e.aborted
+	}
+	var tab [128]string
+	for v := 0; v < 128; v++ {
+		seen := map[string]bool{}
+		var outs []string
+		for _, tr := range e.out[v] {
+			cn, why := canonAppendTrace(tr, cName, v)
+			if why != "" {
+				return &tab, why
+			}
+			if !seen[cn] {
+				seen[cn] = true
+				outs = append(outs, cn)
+			}
+		}
+		sort.Strings(outs)
+		tab[v] = strings.Join(outs, " || ")
+	}
+	return &tab, ""
+}
+
+// canonAppendTrace rewrites a trace of effects: writes become "+<bytes>", runs
+// of writes are merged, the flush of the pending run and the test that guards
+// it are dropped, the byte variable is replaced by its value.
+func canonAppendTrace(tr, cName string, v int) (string, string) {
+	var out []string
+	var pending []string
+	flushPending := func() {
+		if len(pending) > 0 {
+			out = append(out, "+"+strings.Join(pending, ""))
+			pending = nil
+		}
+	}
+	byteOf := func(x ast.Expr) string {
+		switch n := x.(type) {
+		case *ast.Ident:
+			if n.Name == cName {
+				return strconv.QuoteRuneToASCII(rune(v))
+			}
+		case *ast.BasicLit:
+			if n.Kind == token.CHAR {
+				if s, err := strconv.Unquote(n.Value); err == nil {
+					if r := []rune(s); len(r) == 1 {
+						return strconv.QuoteRuneToASCII(r[0])
+					}
+				}
+			}
+		}
+		// symbolic (hex[b>>4]): printed with the byte variable normalised
+		var b bytes.Buffer
+		_ = printer.Fprint(&b, token.NewFileSet(), x)
+		return "<" + subst(strings.Join(strings.Fields(b.String()), ""), map[string]string{cName: "b"}) + ">"
+	}
+	isRun := func(x ast.Expr) bool { // s[start:i], possibly converted
+		for {
+			if call, ok := x.(*ast.CallExpr); ok && len(call.Args) == 1 {
+				x = call.Args[0]
+				continue
+			}
+			break
+		}
+		_, ok := x.(*ast.SliceExpr)
+		return ok
+	}
+	for _, el := range strings.Split(tr, " ; ") {
+		el = strings.TrimSpace(el)
+		if el == "" {
+			continue
+		}
+		if strings.HasPrefix(el, "[") {
+			// an opaque condition: the guard of the flush is dropped with it
+			inner := strings.TrimSuffix(strings.TrimPrefix(el, "["), "]")
+			inner = strings.TrimSuffix(strings.TrimPrefix(inner, "!("), ")")
+			if x, err := parser.ParseExpr(inner); err == nil {
+				if be, ok := x.(*ast.BinaryExpr); ok && be.Op == token.LSS {
+					if a, ok := be.X.(*ast.Ident); ok && a.Name == "start" {
+						continue
+					}
+				}
+			}
+			flushPending()
+			out = append(out, subst(el, map[string]string{cName: "b"}))
+			continue
+		}
+		// dst = append(dst, …)
+		text := el
+		if i := strings.Index(el, " = append("); i > 0 {
+			text = el[i+3:]
+		}
+		x, err := parser.ParseExpr(text)
+		call, isCall := x.(*ast.CallExpr)
+		if err != nil || !isCall {
+			flushPending()
+			out = append(out, subst(el, map[string]string{cName: "b"}))
+			continue
+		}
+		fn := ""
+		switch f := call.Fun.(type) {
+		case *ast.Ident:
+			fn = f.Name
+		case *ast.SelectorExpr:
+			fn = f.Sel.Name
+		}
+		switch {
+		case fn == "append" && len(call.Args) >= 2 && text != el:
+			if call.Ellipsis.IsValid() {
+				if isRun(call.Args[1]) {
+					continue // flush of the pending run
+				}
+				return "", "append of a slice that is not the pending run: " + el
+			}
+			for _, a := range call.Args[1:] {
+				pending = append(pending, byteOf(a))
+			}
+		case fn == "WriteByte" && len(call.Args) == 1:
+			pending = append(pending, byteOf(call.Args[0]))
+		case (fn == "WriteString" || fn == "Write") && len(call.Args) == 1:
+			if lit, ok := call.Args[0].(*ast.BasicLit); ok && lit.Kind == token.STRING {
+				s, err := strconv.Unquote(lit.Value)
+				if err != nil {
+					return "", "string literal: " + el
+				}
+				for _, r := range []byte(s) {
+					pending = append(pending, strconv.QuoteRuneToASCII(rune(r)))
+				}
+			} else if isRun(call.Args[0]) {
+				continue // flush of the pending run
+			} else {
+				return "", "write of something that is neither a literal nor the pending run: " + el
+			}
+		default:
+			flushPending()
+			out = append(out, subst(el, map[string]string{cName: "b"}))
+		}
+	}
+	flushPending()
+	return strings.Join(out, " ; "), ""
 }
